@@ -54,6 +54,51 @@ CHECKS: dict[str, dict] = {
         "assumptions": ["request/reply templates for the listed codes only; same-header requests from another requester "
                         "and replies addressed to another requester are documented collisions: counted, not judged"],
     },
+    "C01": {
+        "specs": [("rx", "serial", 1200, 40000), ("rx", "file", 800, 30000), ("rx", "dict", 800, 30000),
+                  ("rx", "mqtt", 600, 20000)],
+        "budget": (120, 1500),
+        "rule": "one run = a stream of 5-150 lines (real corpus lines, payloads sampled from the library's own per-code "
+                "regexes under the three address shapes, and 1-3-edit corruptions of both) offered through one transport: "
+                "serial (three passes over the same bytes: two seeded read-segmentation schedules incl. 0/1-byte reads "
+                "and CR|LF cuts, and CRLF-aligned writes), packet-log file, packet dict, MQTT JSON. Oracles: exception "
+                "type from the 3 constructors + Message, nothing escapes into the loop, delivered sequence == the lines "
+                "that decode in isolation, segmentation independence. distinct = distinct (transport, line-source "
+                "classes) traces; non-trivial = at least one rejected line or one split read in the stream",
+        "real": ["ramses_tx.transport.PortTransport._read_ready/_frame_read/_pkt_read", "FileTransport._reader",
+                 "MqttTransport._on_message", "ramses_tx.packet.Packet.from_file/from_port/from_dict", "ramses_tx.message.Message",
+                 "ramses_tx.protocol.PortProtocol/ReadProtocol", "all parsers"],
+        "stub": STUB_RF + ["simrf.rf.FakeMqttClient (no paho thread)", "in-memory TextIOWrapper for packet logs"],
+        "assumptions": ["packet-log files are offered as ASCII text (the TextIOWrapper's codec belongs to the caller)",
+                        "MQTT messages are well-formed JSON objects with ts/msg, or truncated JSON"],
+    },
+    "C05": {
+        "specs": [("rx", "decode", 2500, 80000)],
+        "budget": (120, 1500),
+        "rule": "one run = 5-150 decodable lines (corpus + regex-sampled + well-formed arrays of 1-8 elements from the "
+                "proper device kind) decoded (1) in order, (2) permuted with duplicates after a wall-clock jump of 0-400 "
+                "days and an lru_cache flush, (3) by a live serial stack vs in isolation at the same timestamp; JSON "
+                "equality per line; monitors: JSON-serialisable plain types, index == frame index (0418, 3220, simple-idx "
+                "codes), array == list of single-element decodes, ratios 0..1, temperatures in wire range. distinct = "
+                "distinct (verb, code) sequences; non-trivial = >= 2 lines decoded",
+        "real": ["ramses_tx.message.Message", "ramses_tx.parsers.*", "ramses_tx.frame/_pkt_idx/_has_array", "PortTransport+PortProtocol (pass 3)"],
+        "stub": STUB_RF,
+        "assumptions": ["pure clauses (element-wise arrays, index consistency, ranges) are monitored on generated traffic, not enumerated",
+                        "arrays are judged only when sent by the device kind that really sends them (01: / 02: / 23:)"],
+    },
+    "C02": {
+        "specs": [("rx", "logrt", 1500, 50000), ("rx", "serial", 300, 10000), ("rx", "dict", 300, 10000)],
+        "budget": (120, 1500),
+        "rule": "logrt: a live serial session (seeded gaps 0-30 s, some crossing midnight) with packet_log enabled (plain / "
+                "rotate_bytes / rotate at midnight); the written file(s) are replayed through a fresh FileTransport; "
+                "oracle: same packets (rssi, frame, comment, error) in the same order, replayed dtm within [0, 2 ms) of the "
+                "live dtm, timestamps non-decreasing, every line splits [:26]/[27:]. Plus the parse/print identity monitor "
+                "on every frame of every rx run (not enumerated). distinct = distinct (rotation, file count, line classes)",
+        "real": ["ramses_tx.logger (_Logger, formatters, rotating handlers)", "ramses_tx.packet.Packet", "PortTransport", "FileTransport", "ramses_tx.command.Command"],
+        "stub": STUB_RF + ["scratch directory under $TMPDIR per run (removed at the end of the run)"],
+        "assumptions": ["the parse/print half of C02 is a pure function: monitored on generated traffic only, not claimed as enumerated",
+                        "live timestamps are ms-truncated by the library; agreement is judged to 2 ms"],
+    },
 }
 
 
@@ -91,11 +136,24 @@ MANIFEST_TEXT = {
             "note": "A blocking acquire of a held threading.Lock is converted to an observable wedge by a Lock stand-in "
                     "installed from /verif."},
 }
+MANIFEST_TEXT.update({
+    "C01": {"text": "Seeded search over input streams x transports x read-segmentation schedules of the unmodified receive "
+                    "path; oracles are exception families, loop-handler emptiness, continuity against in-isolation decoding "
+                    "and segmentation independence.", "design_ref": "DESIGN.md 7/C01", "technique": _TECH,
+            "note": "Inputs are sampled (corpus, regex sampler, 1-3 edits), not enumerated; V is computed by the library's own "
+                    "constructors in isolation, so the transparent normalisation hacks are on both sides."},
+    "C02": {"text": "Log write -> replay is simulated end to end (virtual clock incl. midnight, rotation); the pure parse/print "
+                    "identity is only monitored on the traffic of the rx runs.", "design_ref": "DESIGN.md 7/C02",
+            "technique": _TECH, "note": "The pure half is not a simulation target and is not claimed as enumerated."},
+    "C05": {"text": "Decode determinism across order, wall clock, cache state and live-vs-isolated contexts is decided by "
+                    "seeded search; the pure clauses are monitored on generated traffic.", "design_ref": "DESIGN.md 7/C05",
+            "technique": _TECH, "note": "Index/array/range monitors use independent tables written in the engine."},
+})
 NOT_APPLICABLE = {
     "C03": "pure function of constructor arguments (decode(build(args)) = args): no schedule, clock, fault, history or second "
            "party to simulate; exhaustive/argument-space enumeration is outside this technique (DESIGN.md 8)",
     "C04": "pure scalar codec inverses over finite enumerable domains: no nondeterminism for a simulator to control "
            "(DESIGN.md 8)",
 }
-for _p in ("C01", "C02", "C05", "C10", "C11", "C12", "C13", "C14", "C15", "C16", "C17", "C18", "C19", "C20"):
+for _p in ("C10", "C11", "C12", "C13", "C14", "C15", "C16", "C17", "C18", "C19", "C20"):
     NOT_APPLICABLE.setdefault(_p, "applicable, but its engine is not built yet in this round (see DESIGN.md 12 build order)")
